@@ -201,6 +201,7 @@ def r6_pong(ctx):
 
 ACK_SLOTS = ((SET, 'remote', SET + '::poll_send', 'frame::settings::Settings::ack'),
              ('proto::ping_pong::PingPong', 'pending_pong', 'proto::ping_pong::PingPong::send_pending_pong', 'frame::ping::Ping::pong'))
+GOAWAY_SLOT = (('proto::go_away::GoAway', 'pending', 'proto::go_away::GoAway::send_pending_go_away', 'std::option::Option::take'),)
 REFUSAL_SLOT = ((P + 'recv::Recv', 'refused', P + 'recv::Recv::send_pending_refusal', 'frame::reset::Reset::new'),)
 
 
